@@ -85,8 +85,9 @@ def cmp_cfg(m, i, strict_prev_order=False):
     """compare graph dumps; returns list of difference strings"""
     diffs = []
     if "err" in m or "err" in i:
-        if ("err" in m) != ("err" in i):
-            diffs.append(f"error status differs: model={norm_err(m)} impl={norm_err(i)}")
+        m_err = ("err" in m) or ("analysis_err" in m)   # the implementation raises from one try block
+        if m_err != ("err" in i) and m.get("structured") is not False:
+            diffs.append(f"error status differs: model={str(norm_err(m))[:200]} impl={norm_err(i)}")
         return diffs
     for k in ("version", "mode", "retained_lines"):
         if m.get(k) != i.get(k):
@@ -119,6 +120,8 @@ def cmp_cfg(m, i, strict_prev_order=False):
 
 def cmp_ctx(m, i, key_filter=None):
     diffs = []
+    if m.get("structured") is False:
+        return diffs  # a block shared by two routines: outside every property's quantifier (tealer's own TODO)
     if "ctx" not in m or "ctx" not in i:
         if ("ctx" in m) != ("ctx" in i):
             diffs.append(f"analysis status differs: model={m.get('analysis_err', m.get('err'))} impl={i.get('err')}")
@@ -138,6 +141,8 @@ def cmp_ctx(m, i, key_filter=None):
 
 def cmp_paths(m, i, detectors=None):
     diffs = []
+    if m.get("structured") is False:
+        return diffs
     if "paths" not in m or "paths" not in i:
         if ("paths" in m) != ("paths" in i):
             diffs.append(f"detect status differs: model={m.get('analysis_err', m.get('err'))} impl={i.get('err')}")
